@@ -519,7 +519,11 @@ def run_cases(ctx, binp, cases):
             raise vlib.HarnessError("c09match rejected a case (generator bug): %s / %r / %r" % (o, c["pattern"], c["snippet"]))
         f = parse_fields(o)
         c["real"] = f
-        lines.append("m %s %s" % (hx(c["pattern"]), f["T"]))
+        if f.get("P") == "ok":
+            bs = [x for x in f.get("B", "").split(",") if x]
+            lines.append("m %s %s %d %s %s" % (hx(c["pattern"]), f["PT"], len(bs), " ".join(bs), f["T"]))
+        else:
+            lines.append("m %s - %s" % (hx(c["pattern"]), f["T"]))
     mo = vlib.run_model(ctx, "C09", lines)
     for c, o in zip(cases, mo):
         if o == "bad-op":
@@ -533,14 +537,22 @@ def brief(c):
     return {
         "pattern": c["pattern"], "snippet_kind": c["kind"], "snippet": c["snippet"], "spelling": c.get("spelling"),
         "group": c.get("group"),
-        "real": {"parse": r.get("P"), "result": r.get("R"), "state": r.get("ST"), "idx": r.get("I"), "bindings": r.get("B")},
-        "spec": {"result": m.get("SP"), "state": m.get("SS"), "well_formed": m.get("W")},
-        "model_impl": {"parse": m.get("P"), "result": m.get("R"), "state": m.get("ST"), "idx": m.get("I"), "bindings": m.get("B")},
+        "real": {"parse": r.get("P"), "result": r.get("R"), "state": r.get("ST"), "idx": r.get("I"), "bindings": r.get("B"),
+                 "root": r.get("PT")},
+        "spec_on_real_root": {"result": m.get("SP"), "state": m.get("SS"), "well_formed": m.get("W")},
+        "model": {"parse_of_text": m.get("P"), "same_structure_as_real_root": m.get("PM"), "same_numbering": m.get("NUM"),
+                  "real_indices_consistent": m.get("RW"), "result_on_real_root": m.get("R"), "state": m.get("ST")},
     }
 
 
 def evaluate(cases):
-    """returns (oracle failures by class, tie mismatches)"""
+    """returns (oracle failures by class, tie mismatches).
+
+    Tie (model = code), per case: the model parser accepts/rejects the text like the real parser (P);
+    it builds the same pattern structure (PM); the real parser's indices satisfy wfIdx, the hypothesis
+    of the theorems (RW); the model matcher run on the REAL parser's Root + Bindings gives the real
+    result and State (R, ST).  The numbering itself (NUM) is recorded, not required: any consistent
+    numbering satisfies the property."""
     fails = {"leak": [], "panic_created": [], "spelling": []}
     tie = []
     groups = {}
@@ -549,15 +561,16 @@ def evaluate(cases):
         # --- tie
         if r.get("P") != m.get("P"):
             tie.append(("parse", c))
-        elif r.get("P") == "ok":
-            for key in ("STR", "I", "B", "R"):
-                if r.get(key) != m.get(key):
-                    tie.append((key, c))
-                    break
-            else:
-                if r["R"] == "ok" and r.get("ST") != m.get("ST"):
-                    tie.append(("ST", c))
-        if r.get("P") != "ok" or m.get("P") != "ok":
+        if r.get("P") == "ok":
+            if m.get("P") in ("ok", "err64") and m.get("PM") != "1":
+                tie.append(("structure", c))
+            if m.get("RW") != "1":
+                tie.append(("wfIdx", c))
+            if r.get("R") != m.get("R"):
+                tie.append(("R", c))
+            elif r["R"] == "ok" and r.get("ST") != m.get("ST"):
+                tie.append(("ST", c))
+        if r.get("P") != "ok":
             continue
         # --- oracle (a): exactly the bindings of the successful path
         if r["R"] == "ok" and (m["SP"] != "ok" or r["ST"] != m["SS"]):
@@ -691,7 +704,8 @@ def report(ctx, fails, tie, tab_diffs, lean_ok, lean_broke, binp, search):
         ctx.violation("correspondence.json", {
             "what": "the Lean model no longer corresponds to pattern/match.go + parser.go (or a proof no longer checks), "
                     "but the oracle held on every explored input including the extra search batch",
-            "correspondence": "C09 match stream (fields P/STR/I/B/R/ST) and tables; theorems " + ", ".join(THEOREMS),
+            "correspondence": "C09 match stream (parse status, pattern structure, wfIdx of the real indices, result, State) "
+                              "and tables; theorems " + ", ".join(THEOREMS),
             "mismatch_counts": {k: len(v) for k, v in by.items()},
             "mismatches": {k: [brief(c) for c in sorted(v, key=key)[:10]] for k, v in by.items()},
             "table_diffs": tab_diffs, "lean": lean_broke, "search": search,
@@ -738,13 +752,21 @@ def run(ctx):
     res_hist = {}
     spec_hist = {}
     maxnames = 0
+    num_same = num_diff = 0
+    width_hist = {}
     for c in allc:
         r, m = c["real"], c["model"]
         res_hist[r.get("R", "parse-" + r.get("P", "?"))] = res_hist.get(r.get("R", "parse-" + r.get("P", "?")), 0) + 1
-        if m.get("P") == "ok":
+        if r.get("P") == "ok":
             spec_hist[m["SP"] + "/wf" + m["W"]] = spec_hist.get(m["SP"] + "/wf" + m["W"], 0) + 1
-            nb = len([x for x in m.get("B", "").split(",") if x])
+            nb = len([x for x in r.get("B", "").split(",") if x])
             maxnames = max(maxnames, nb)
+            b = "0" if nb == 0 else "1-4" if nb <= 4 else "5-31" if nb <= 31 else "32-63" if nb <= 63 else "64"
+            width_hist[b] = width_hist.get(b, 0) + 1
+            if m.get("NUM") == "1":
+                num_same += 1
+            else:
+                num_diff += 1
             if int(m.get("NT", "0")) >= 1:
                 nontriv.add((c["pattern"], c["snippet"]))
     step = max(1, len(allc) // 6)
@@ -759,6 +781,10 @@ def run(ctx):
         "real_result_histogram": res_hist,
         "spec_histogram": spec_hist,
         "max_names_in_a_pattern": maxnames,
+        "names_per_pattern_histogram": width_hist,
+        "index_numbering": {"identical_to_model_parser": num_same, "different_but_consistent_or_flagged": num_diff,
+                            "note": "parse_wfIdx / spellings_agree speak about the model parser; they transfer to the real parser on the "
+                                    "cases counted as identical; wfIdx of the real indices is checked on every case regardless"},
         "spelling_groups": len(set(c["group"] for c in allc if c.get("group"))),
         "table_entries_compared": tab_n,
         "tie_mismatches": len(tie),
@@ -769,7 +795,8 @@ def run(ctx):
         "only the type-information-free pattern language is modelled (Parser.AllowTypeInfo=false): Symbol, Object, Builtin, "
         "IntegerLiteral, TrulyConstantExpression and Matcher.TypesInfo are outside the model",
         "lexer.go and the token level of parser.go are transliterated in the Lean driver (not in the proved model) and tied by "
-        "comparing Root.String(), Binding.idx and Pattern.Bindings on every case",
+        "comparing the structure of the parsed pattern with the real Pattern.Root on every case; the model matcher and the "
+        "specification are run on the real parser's Root and Bindings (serialised by reflection in harness/cmd/c09match)",
         "go/parser and the reflection-based serialisation of the ast (harness/internal/c09ser) are trusted",
         "tokensByString and the pattern node field names are data in the model, compared with the real tables on every run",
     ]
